@@ -575,3 +575,31 @@ func TestD20NaNParametersRejected(t *testing.T) {
 		}
 	}
 }
+
+// ---- D22 (C15) ----
+func TestD22GrpcUnparsableIndexIsInvalidArgument(t *testing.T) {
+	ctx := context.Background()
+	core, err := server.NewCore(ctx)
+	if err != nil {
+		t.Fatal(err)
+	}
+	ms := grpcserver.NewTrustMatrixServer(&core.StoredTrustMatrices)
+	vs := grpcserver.NewTrustVectorServer(&core.StoredTrustVectors)
+	id := "x"
+	_, _ = ms.Create(ctx, &tmpb.CreateRequest{Id: id})
+	_, _ = vs.Create(ctx, &tvpb.CreateRequest{Id: id})
+	for _, bad := range []string{"abc", "", "1.5", " 2", "99999999999999999999"} {
+		_, err := ms.Update(ctx, &tmpb.UpdateRequest{Header: &tmpb.Header{Id: &id}, Entries: []*tmpb.Entry{{Truster: bad, Trustee: "0", Value: 1}}})
+		if status.Code(err) != codes.InvalidArgument {
+			t.Errorf("matrix Update truster %q -> %v, want InvalidArgument", bad, status.Code(err))
+		}
+		_, err = ms.Update(ctx, &tmpb.UpdateRequest{Header: &tmpb.Header{Id: &id}, Entries: []*tmpb.Entry{{Truster: "0", Trustee: bad, Value: 1}}})
+		if status.Code(err) != codes.InvalidArgument {
+			t.Errorf("matrix Update trustee %q -> %v, want InvalidArgument", bad, status.Code(err))
+		}
+		_, err = vs.Update(ctx, &tvpb.UpdateRequest{Header: &tvpb.Header{Id: &id}, Entries: []*tvpb.Entry{{Trustee: bad, Value: 1}}})
+		if status.Code(err) != codes.InvalidArgument {
+			t.Errorf("vector Update trustee %q -> %v, want InvalidArgument", bad, status.Code(err))
+		}
+	}
+}
